@@ -20,11 +20,11 @@ def gridCells (g : Grid) : List Line := (g.map rowCells).flatten
 /-- the cells of column `j`, top to bottom -/
 def gridCol (g : Grid) (j : Nat) : List Line := g.filterMap (fun row => (row[j]?).join)
 
-/-- two cells of one row: vertically overlapping boxes, baselines within the 10-pixel tolerance -/
+/-- two cells of one row: vertically overlapping boxes, baselines within the tolerance `rowTol` of `is_next_to` -/
 def SameBand (a b : Line) : Prop :=
   max a.box.top b.box.top ≤ min a.box.bottom b.box.bottom ∧
   match a.bl, b.bl with
-  | some x, some y => x.top ≤ y.bottom + 10 ∧ y.top ≤ x.bottom + 10
+  | some x, some y => x.top ≤ y.bottom + rowTol ∧ y.top ≤ x.bottom + rowTol
   | _, _ => False
 
 instance (a b : Line) : Decidable (SameBand a b) := by
